@@ -216,7 +216,10 @@ var barScenarios = []bScenario{
 
 var fullPoints = []int{skiplist.VpAcqLoaded, skiplist.VpAcqIncremented, skiplist.VpRelBeforeDec, skiplist.VpRelLatched, skiplist.VpRelEnqueued,
 	skiplist.VpRelCleanupDone, skiplist.VpRelUnlocked, skiplist.VpCleanupLoop, skiplist.VpCleanupBeforeDestruct, skiplist.VpFlushBeforeLock,
-	skiplist.VpFlushLocked, skiplist.VpFlushSwapped, skiplist.VpFlushBeforeOffset, skiplist.VpFlushBeforeRelease}
+	skiplist.VpFlushLocked, skiplist.VpFlushSwapped, skiplist.VpFlushBeforeOffset, skiplist.VpFlushBeforeRelease,
+	// the barrier's queue of terminated sessions is itself a skiplist: its publish point lets the
+	// controller hold a releaser inside the queue insert (between latching and being visible)
+	skiplist.VpInsBeforePublish}
 
 // coarse: the points the properties name (between queue insert, try-lock, queue walk, try-lock release; Acquire's load/increment; flush swap/offset)
 var coarsePoints = []int{skiplist.VpAcqLoaded, skiplist.VpAcqIncremented, skiplist.VpRelBeforeDec, skiplist.VpRelEnqueued,
